@@ -156,5 +156,25 @@ impl<T> Sendable<T> {
 //@@ end
 }
 
+// ---------------------------------------------------------------- DeliveryState: which states are terminal (fe2o3-amqp-types, messaging/delivery_state/mod.rs)
+pub mod dstate {
+use super::*;
+macro_rules! opaque2 { ($($n:ident),*) => { verus!{ $( #[verifier::external_body] pub struct $n { _p: u8 } )* } } }
+opaque2!(Received, Accepted, Rejected, Released, Modified, Declared, TransactionalState);
+//@@ type file=fe2o3-amqp-types/src/messaging/delivery_state/mod.rs kind=enum name=DeliveryState
+//@@ end
+impl DeliveryState {
+//@@ fn file=fe2o3-amqp-types/src/messaging/delivery_state/mod.rs impl=`impl DeliveryState` name=is_terminal
+//@@ spec
+    ensures r == (self is Accepted || self is Rejected || self is Released || self is Modified || self is Declared),       // [C02.state.terminal-outcomes] the terminal outcomes are accepted, rejected, released and modified (and `declared`, the outcome of a declare): a `received` state and a transactional state are NOT -- this is the predicate the units LINK, SESSION, REASM and DELIVFUT name `spec_is_terminal` (uninterpreted there): it decides when a send completes, when the settling echo is owed and which state a later frame may no longer replace
+//@@ end
+
+//@@ fn file=fe2o3-amqp-types/src/messaging/delivery_state/mod.rs impl=`impl DeliveryState` name=is_received
+//@@ spec
+    ensures r == (self is Received),
+//@@ end
+}
+} // mod dstate
+
 } // verus!
 fn main() {}
